@@ -475,6 +475,29 @@ pub fn run(o: &crate::Opts) {
     }
     counts.push(("random_lines", n));
 
+    // 4b. very many surplus tokens (counters of 8 bits and the like must not wrap or overflow):
+    // a command followed by N space-separated tokens, N around every power of two up to 2^16
+    let mut n = 0;
+    let heads = ["move r0 7", "help", "step", "break list", "print r1", "goto x3000", "echo", "eval add r0 r0 #1", "step into", "bogus"];
+    let mut counts_n: Vec<usize> = vec![1, 2, 3, 4, 5, 8];
+    for p in [7u32, 8, 9, 10, 16] {
+        if p == 16 && !o.thorough {
+            continue;
+        }
+        for d in [-3i64, -2, -1, 0, 1, 2] {
+            counts_n.push(((1i64 << p) + d) as usize);
+        }
+    }
+    counts_n.extend_from_slice(&[250, 251, 252, 300, 1000]);
+    for h in heads {
+        for &k in &counts_n {
+            for tok in [" x", "  7", " r1"] {
+                emit(Case::Line(format!("{}{}", h, tok.repeat(k))), &mut cap, &mut sink, false, &mut n);
+            }
+        }
+    }
+    counts.push(("many_tokens", n));
+
     // 5. scripts: every split between argument and stdin, `;` vs newline vs mixed
     let mut n = 0;
     let nscripts = if o.thorough { 2000 } else { 200 };
